@@ -26,7 +26,11 @@ pub mod c10;
 #[cfg(feature = "full")]
 pub mod c11;
 #[cfg(feature = "full")]
+pub mod c12;
+#[cfg(feature = "full")]
 pub mod c13;
+#[cfg(feature = "full")]
+pub mod helpmodel;
 #[cfg(feature = "full")]
 pub mod c18;
 #[cfg(feature = "full")]
@@ -179,6 +183,7 @@ pub fn run_case(case: &mut Case) {
         "C09" => c09::run_case(case),
         "C10" => c10::run_case(case),
         "C11" => c11::run_case(case),
+        "C12" => c12::run_case(case),
         "C13" => c13::run_case(case),
         "C18" => c18::run_case(case),
         "C19" => c19::run_case(case),
